@@ -6,10 +6,12 @@
 (* validated by TraceStore.                                                  *)
 EXTENDS StoreProps, Json
 
-CONSTANTS Menu, MaxFlushes, MaxCrashes, Depth, Sorted, AllowClose, AllowCrash
+CONSTANTS Menu, MaxFlushes, MaxCrashes, Depth, Sorted, AllowClose, AllowCrash,
+          FieldMenu,   \* [Tables -> Seq(field list)]: successive definitions applied by Alter
+          WhereMenu    \* [Tables -> Seq(where id)]
 
-VARIABLES hist, crashes
-svars == <<vars, hist, crashes>>
+VARIABLES hist, crashes, nalt
+svars == <<vars, hist, crashes, nalt>>
 
 H(rec) == hist' = Append(hist, rec)
 
@@ -18,18 +20,19 @@ StartAll ==
   /\ ~up
   /\ up' = TRUE /\ opened' = Tables /\ clock' = 0
   /\ cur' = [t \in Tables |-> Newest(t)]
-  /\ mem' = [t \in Tables |-> EmptyMem(RecoveredOff(t), InitFlds[t])]
+  /\ mem' = [t \in Tables |-> EmptyMem(RecoveredOff(t), flds[t])]
   /\ rd' = [t \in Tables |-> RecoveredOff(t)]
   /\ pend' = [t \in Tables |-> <<>>]
   /\ fl' = [t \in Tables |-> IdleFlush]
   /\ flushCount' = [t \in Tables |-> 0]
-  /\ where' = InitWhere /\ flds' = InitFlds
+  /\ UNCHANGED <<where, flds>>      \* the schema file is what the last Alter left
   /\ UNCHANGED <<wal, disk, offFile, nextFile>>
 
 \* DB.Close with a quiescent pipeline: every row store runs its final forced
 \* flush (data flush, or offset file if only the offset moved), then stops
 FinalFile(t) == [cells |-> FlushContent(t, (flushCount[t] % TruncEvery) = TruncEvery - 1, FALSE),
-                 off |-> mem[t].off, flds |-> mem[t].flds]
+                 off |-> mem[t].off, flds |-> mem[t].flds,
+                 trunc |-> (flushCount[t] % TruncEvery) = TruncEvery - 1, now |-> clock]
 Dirty == {t \in Tables : mem[t].cells # EmptyBag}
 CleanClose ==
   /\ up /\ opened = Tables
@@ -46,34 +49,66 @@ CleanClose ==
   /\ up' = FALSE /\ opened' = {}
   /\ UNCHANGED <<wal, clock, rd, pend, fl, where, flds>>
 
-SimInit == Init /\ hist = <<>> /\ crashes = 0
+SimInit == Init /\ hist = <<>> /\ crashes = 0 /\ nalt = [t \in Tables |-> [f |-> 0, w |-> 0]]
 
 SimNext ==
   \/ /\ Len(wal) < Len(Menu)
-     /\ Insert(Menu[Len(wal) + 1]) /\ H([a |-> "Insert", i |-> Len(wal) + 1]) /\ UNCHANGED crashes
+     /\ Insert(Menu[Len(wal) + 1]) /\ H([a |-> "Insert", i |-> Len(wal) + 1]) /\ UNCHANGED <<crashes, nalt>>
   \/ \E t \in Tables :
-       \/ pend[t] = <<>> /\ Decide(t) /\ H([a |-> "Decide", t |-> t]) /\ UNCHANGED crashes
-       \/ Apply(t) /\ H([a |-> "Apply", t |-> t]) /\ UNCHANGED crashes
+       \/ pend[t] = <<>> /\ Decide(t) /\ H([a |-> "Decide", t |-> t]) /\ UNCHANGED <<crashes, nalt>>
+       \/ Apply(t) /\ H([a |-> "Apply", t |-> t]) /\ UNCHANGED <<crashes, nalt>>
        \/ /\ nextFile + Cardinality({u \in Tables : fl[u].pc \in {"begun", "temp"}}) <= MaxFlushes
           /\ \E s \in Sorted : FlushBegin(t, s) /\ H([a |-> "FlushBegin", t |-> t, sorted |-> s])
-          /\ UNCHANGED crashes
-       \/ FlushTemp(t) /\ H([a |-> "FlushTemp", t |-> t]) /\ UNCHANGED crashes
-       \/ FlushRename(t) /\ H([a |-> "FlushRename", t |-> t]) /\ UNCHANGED crashes
-       \/ FlushSwap(t) /\ H([a |-> "FlushSwap", t |-> t]) /\ UNCHANGED crashes
-       \/ OffWrite(t) /\ H([a |-> "OffWrite", t |-> t]) /\ UNCHANGED crashes
+          /\ UNCHANGED <<crashes, nalt>>
+       \/ FlushTemp(t) /\ H([a |-> "FlushTemp", t |-> t]) /\ UNCHANGED <<crashes, nalt>>
+       \/ FlushRename(t) /\ H([a |-> "FlushRename", t |-> t]) /\ UNCHANGED <<crashes, nalt>>
+       \/ FlushSwap(t) /\ H([a |-> "FlushSwap", t |-> t]) /\ UNCHANGED <<crashes, nalt>>
+       \/ OffWrite(t) /\ H([a |-> "OffWrite", t |-> t]) /\ UNCHANGED <<crashes, nalt>>
   \/ /\ AllowCrash /\ crashes < MaxCrashes /\ Len(wal) > 0
-     /\ Crash /\ crashes' = crashes + 1 /\ H([a |-> "Crash"])
+     /\ Crash /\ crashes' = crashes + 1 /\ H([a |-> "Crash"]) /\ UNCHANGED nalt
   \/ /\ AllowClose /\ crashes < MaxCrashes /\ Len(wal) > 0
-     /\ CleanClose /\ crashes' = crashes + 1 /\ H([a |-> "Close"])
-  \/ StartAll /\ H([a |-> "Start"]) /\ UNCHANGED crashes
+     /\ CleanClose /\ crashes' = crashes + 1 /\ H([a |-> "Close"]) /\ UNCHANGED nalt
+  \/ StartAll /\ H([a |-> "Start"]) /\ UNCHANGED <<crashes, nalt>>
   \/ /\ up /\ opened = Tables
      /\ hist # <<>> /\ hist[Len(hist)].a # "Probe"
-     /\ UNCHANGED <<vars, crashes>> /\ H([a |-> "Probe"])
+     /\ UNCHANGED <<vars, crashes, nalt>> /\ H([a |-> "Probe"])
 
-SimSpec == SimInit /\ [][SimNext]_svars
+\* table.Alter as the harness can drive it: ApplySchema returns once the row
+\* store has taken the new field list, so AlterFields and RSFields are one step
+AlterBoth(t) ==
+  /\ up /\ t \in opened /\ fl[t].pc = "idle" /\ pend[t] = <<>>
+  /\ nalt[t].f < Len(FieldMenu[t])
+  /\ LET fs == FieldMenu[t][nalt[t].f + 1]
+     IN /\ fs # flds[t]
+        /\ flds' = [flds EXCEPT ![t] = fs]
+        /\ IF mem[t].cells = EmptyBag
+           THEN \* the forced flush of an empty memstore writes the offset file
+                \* if the offset moved (row_store.go:257-264), then the
+                \* memstore is replaced
+                /\ mem' = [mem EXCEPT ![t].flds = fs, ![t].changed = FALSE]
+                /\ offFile' = [offFile EXCEPT ![t] = IF mem[t].changed THEN mem[t].off ELSE @]
+                /\ UNCHANGED fl
+           ELSE /\ mem' = [mem EXCEPT ![t].flds = fs, ![t].cells = OnFields(@, fs)]
+                /\ fl' = [fl EXCEPT ![t] = [pc |-> "pre"]]
+                /\ UNCHANGED offFile
+        /\ H([a |-> "AlterFields", t |-> t, fs |-> fs])
+  /\ nalt' = [nalt EXCEPT ![t].f = @ + 1]
+  /\ UNCHANGED <<wal, clock, up, opened, rd, pend, cur, disk, flushCount, where, nextFile, crashes>>
+
+AlterW(t) ==
+  /\ nalt[t].w < Len(WhereMenu[t])
+  /\ fl[t].pc = "idle" /\ pend[t] = <<>>
+  /\ LET w == WhereMenu[t][nalt[t].w + 1]
+     IN AlterWhere(t, w) /\ H([a |-> "AlterWhere", t |-> t, w |-> w])
+  /\ nalt' = [nalt EXCEPT ![t].w = @ + 1]
+  /\ UNCHANGED crashes
+
+SimNextAll == SimNext \/ \E t \in Tables : AlterBoth(t) \/ AlterW(t)
+
+SimSpec == SimInit /\ [][SimNextAll]_svars
 
 \* printed once per behaviour: when it reaches the requested depth, or earlier
 \* when nothing more can happen within the bounds
-Emit == (Len(hist) = Depth \/ (Len(hist) < Depth /\ Len(hist) > 8 /\ ~ENABLED SimNext))
+Emit == (Len(hist) = Depth \/ (Len(hist) < Depth /\ Len(hist) > 8 /\ ~ENABLED SimNextAll))
           => PrintT(<<"ZVSIM", ToJson(hist)>>)
 =============================================================================
